@@ -256,7 +256,7 @@ theorem exhausted_rel {cfg : Cfg} (tl : Bool) {we wc : World} (hπ : π we = π 
       simp only [if_true, throw_run]
       exact ⟨k3, by simp [deliverRelated, hrs, g1, g2, h, hatt1]⟩
     · rw [g2, g3, h1, h2]
-      simp only [reduceCtorEq, if_false, throw_run]
+      simp only [reduceCtorEq, if_false]
       refine ⟨k3, ?_⟩
       rw [dr_plain h3]
       simp [hrs, g2, g3, h1, h2]
